@@ -75,7 +75,7 @@ func main() {
 		fs.BoolVar(&r.dump, "dump", false, "keep SMT files and print failing obligations in detail")
 		fs.BoolVar(&r.update, "update-expect", false, "rewrite the .expect list from the discharged obligations")
 		fs.BoolVar(&r.verbose, "v", false, "verbose")
-		fs.IntVar(&r.quickT, "qt", 10, "first solver timeout (s)")
+		fs.IntVar(&r.quickT, "qt", 4, "first solver timeout (s)")
 		fs.IntVar(&r.slowT, "st", 30, "fallback solver timeout (s)")
 		_ = fs.Parse(os.Args[2:])
 		os.Exit(runCheck(r))
@@ -262,7 +262,21 @@ func runCheck(r *propRun) int {
 				fmt.Printf("  note %s: %s\n", sk, n)
 			}
 		}
+		// split conjunctive goals into separate obligations (smaller, more stable queries)
+		var obls []*Oblig
 		for _, o := range fr.Obligs {
+			if !o.ExpectSat && o.Goal != nil && o.Goal.op == "and" && len(o.Goal.args) <= 12 && (o.Kind == "ensures" || o.Kind == "loopinit" || o.Kind == "looppreserve") {
+				for k, part := range o.Goal.args {
+					c := *o
+					c.Goal = part
+					c.Name = fmt.Sprintf("%s.%d", o.Name, k+1)
+					obls = append(obls, &c)
+				}
+				continue
+			}
+			obls = append(obls, o)
+		}
+		for _, o := range obls {
 			asserts := append([]*Term{}, fr.Exec.assumps[:o.NAssump]...)
 			asserts = append(asserts, o.Guard)
 			if !o.ExpectSat {
